@@ -53,6 +53,12 @@ def run(chk):
            min_instances=15)
   pure_translation(chk, 'C01-R7')
 
+  chk.rule('C01-R8', 'expression grouping: the infix splitter tries looser '
+           'operators first (logical < comparison < additive < multiplicative < '
+           'power), `+` before `-` and `*` before `/` (left-to-right evaluation), '
+           'and an operator that contains another one before it', min_instances=20)
+  K.operator_grouping(chk, 'C01-R8')
+
   chk.rule('C01-R4', 'several rules are combined with UNION ALL and no '
            'DISTINCT; GROUP BY is emitted only for distinct_vars',
            min_instances=3)
